@@ -64,3 +64,13 @@ claim("C02",
       "Every producer path that can succeed passes Bundle.CheckValid and returns its verdict; the validator reaches the validator of every block type / endpoint scheme in the program and drops no verdict; each structural rule of the statement has an error branch depending on its operands. Quantifies over all inputs because it is about all paths; a new block type without a reachable validator, a dropped verdict or a deleted rule is caught.",
       "Not decided: the exact truth table of each predicate, regexp semantics, lifetime at the instant of use.",
       "DESIGN.md §3 C02")
+claim("C09",
+      "path enumeration of Bundle.Fragment with the payload length bound to 0 / positive and the must-not-fragment test bound; value-flow rules on fragmentPrimaryBlock and the payload slice bounds; control-dependence set of the block copy",
+      "Decides for all inputs: no success path returns an empty list; must-not-fragment is always refused; fragments copy the identity fields and set IsFragment; slices are [i:min(i+k,len)] with the loop advancing by the same k (partition by construction); extension blocks are copied under exactly the stated conditions. The per-fragment size bound and byte-identical reassembly are arithmetic over run-time sizes and are explicitly NOT decided.",
+      "Not decided: each fragment <= mtu (overhead estimate), byte-identical reassembly.",
+      "DESIGN.md §3 C09")
+claim("C10",
+      "linear-bounds entailment from dominating guards for the merge slice, monotone-accumulator rule on the loop-carried coverage frontier, value-dependence of fragment coordinates, guarded append in the store",
+      "For every collection of fragments: the merge can only slice within bounds (both bounds entailed by dominating guards), the coverage frontier never moves backwards (so contained/overlapping fragments cannot cause a false gap), fragments of fragments keep original coordinates (value dependence on the input's offset/total), and the store de-duplicates parts before collecting. These are necessary conditions; equality of the reassembled payload is not decided.",
+      "Not decided: that the returned payload equals the original for covering sets.",
+      "DESIGN.md §3 C10")
